@@ -1,5 +1,6 @@
 import RpcVerif.Generated.ProvFacts
 import RpcVerif.Lemmas.ConnProps
+import RpcVerif.Model.Pool
 /-
   C19 — context cancellation returns promptly and harms no other call.
   "As soon as" is not a theorem about time: cancellation is shown to be an always-enabled single
@@ -39,5 +40,26 @@ theorem C19_context_buffer (cap len : Nat) :
     ((replyBuffer cap len).1 = true ↔ len ≤ cap) ∧ (replyBuffer cap len).2 ≤ cap ∧
     ((replyBuffer cap len).1 = false → (replyBuffer cap len).2 = 0) := by
   unfold replyBuffer Gen.ctxBufferFits; split <;> simp_all <;> omega
+
+/-- What `Transport.CallWithContext` does to the pool once the call on the pooled connection `id`
+    has returned: stamp the connection, then `checkPersistConnErr` — whose condition is read from
+    transport.go on every run (Generated/PoolFacts.lean, `persistErrOnlyShutdown`). -/
+def afterPooledCall (s : P.State) (id : Nat) (errIsShutdown : Bool) : P.State :=
+  let s := P.step s (.stamp id)
+  if Gen.persistErrOnlyShutdown then (if errIsShutdown then P.step s (.fail id) else s) else P.step s (.fail id)
+
+/-- A context's error (deadline, cancellation) on one pooled call harms no other call of the
+    transport: the connection it ran on stays open and alive with its outstanding calls, every
+    other connection is untouched, and so are the queues — for every pool state. -/
+theorem C19_context_error_keeps_the_connection (s : P.State) (id : Nat) :
+    let s' := afterPooledCall s id false
+    (∀ j, (s'.pcs j).map (fun p => (p.alive, p.isOpen, p.dead, p.calls)) = (s.pcs j).map (fun p => (p.alive, p.isOpen, p.dead, p.calls))) ∧
+    s'.active = s.active ∧ s'.idle = s.idle ∧ s'.running = s.running := by
+  have hg : Gen.persistErrOnlyShutdown = true := by decide
+  simp only [afterPooledCall, hg, if_true, P.step, P.updPc]
+  refine ⟨fun j => ?_, rfl, rfl, rfl⟩
+  by_cases h : j = id
+  · subst h; cases hp : s.pcs j <;> simp [hp]
+  · simp [h]
 
 end RpcVerif.Props
